@@ -89,6 +89,15 @@ def run(tier):
     # ... and at real sizes: fragmented messages of 40000..200000 bytes (buffer lengths around 2^16 and 2^17), the repository's flights
     from checks import c07
     big = c07.big_runs() + c07.capture_runs()
+    # hand-built records no conforming peer can send (the defragmenter takes a TlsRawRecord, whatever its size): a FIRST fragment
+    # of 10 MiB + 1 and of 12 MiB that stays incomplete, then small ones
+    for n in (10 * 1024 * 1024 - 1, 10 * 1024 * 1024, 10 * 1024 * 1024 + 1, 12 * 1024 * 1024):
+        big.append({"id": "hugefirst:%d" % n, "ops": [
+            {"op": "parse_record", "ct": 22, "ver": 771, "data": [{"lit": [11, 255, 255, 255], "fill": [0, 0, 0]}, {"lit": [], "fill": [1, 3, n - 4]}]},
+            {"op": "parse_record", "ct": 22, "ver": 771, "data": [{"lit": [1, 2, 3], "fill": [0, 0, 0]}]},
+            {"op": "parse_record", "ct": 21, "ver": 771, "data": [{"lit": [1, 0], "fill": [0, 0, 0]}]},
+            {"op": "reset", "ct": 0, "ver": 0, "data": [{"lit": [], "fill": [0, 0, 0]}]},
+            {"op": "parse_record", "ct": 24, "ver": 771, "data": [{"lit": [1, 255, 255], "fill": [0, 0, 0]}, {"lit": [], "fill": [2, 5, n]}]}]})
     bin_, bout = os.path.join(d, "defrag_big.in.ndjson"), os.path.join(d, "defrag_big.out.ndjson")
     vlib.write_ndjson(bin_, [{"id": r["id"], "prefix": [], "tests": r["ops"], "seq": True} for r in big])
     vlib.run_harness(binary, ["defrag", bin_, bout])
